@@ -25,6 +25,33 @@ def cast(node, q, retain, nodes):
             "publishers": [{"c": 8, "n": 1, "user": "tenant:A", "topics": [["w", "live"]], "q": 0}]}
 
 
+def three_node_failures():
+    """Node 2 hosts will-carrying sessions and fails; the survivors 1 and 3 (each with matching watchers) are told by the
+    membership layer in either order, with or without the first survivor's gossip reaching the other one in between."""
+    out = []
+    for order in ([1, 3], [3, 1]):
+        for stagger in (False, True):
+            for q, r in ((0, False), (1, True), (2, False)):
+                ops = [{"op": "connect", "c": 7, "n": 1, "client": "watch7", "user": "tenant:A", "ka": 60000},
+                       {"op": "sub", "c": 7, "id": 1, "fs": [{"f": ["w", "#"], "q": 1}]},
+                       {"op": "connect", "c": 6, "n": 3, "client": "watch6", "user": "tenant:A", "ka": 60000},
+                       {"op": "sub", "c": 6, "id": 1, "fs": [{"f": ["w", "+", "x"], "q": 2}, {"f": ["w", "mortal", "x"], "q": 0}]},
+                       {"op": "connect", "c": 5, "n": 3, "client": "watch5", "user": "tenant:B", "ka": 60000},
+                       {"op": "sub", "c": 5, "id": 1, "fs": [{"f": ["#"], "q": 1}]},
+                       {"op": "connect", "c": 1, "n": 2, "client": "mortal", "user": "tenant:A", "ka": 10,
+                        "will": {"t": ["w", "mortal", "x"], "p": "will-q%d" % q, "q": q, "r": r}},
+                       {"op": "connect", "c": 2, "n": 2, "client": "polite", "user": "tenant:A", "ka": 10,
+                        "will": {"t": ["w", "polite", "x"], "p": "will-polite", "q": 1, "r": False}},
+                       {"op": "send", "c": 2, "kind": "DISCONNECT"},
+                       {"op": "peerfail", "n": 2, "ms": 3300, "order": order, "stagger": stagger}]
+                if r:
+                    ops += [{"op": "connect", "c": 4, "n": 1, "client": "late", "user": "tenant:A", "ka": 60000},
+                            {"op": "sub", "c": 4, "id": 1, "fs": [{"f": ["w", "#"], "q": 1}]}]
+                ops.append({"op": "quiesce"})
+                out.append({"nodes": [1, 2, 3], "ops": ops})
+    return out
+
+
 def check(run):
     thorough = run.tier == "thorough"
     run.model_check("MC_Session", "MC_Session_keepalive.cfg")
@@ -49,7 +76,9 @@ def check(run):
     for i, h in enumerate(pf[:: max(1, len(pf) // npf)]):
         # connection 1 lives on node 1 and connection 2 on node 2 (as in the generator); either node may be the one that fails
         scns.append(sessionlib.build(h, cast(1, 1 + i % 2, i % 3 == 0, [1, 2])))
-    run.log("%d will scripts (%d with a node failure)" % (len(scns), min(len(pf), npf)))
+    t3 = three_node_failures()
+    scns += t3
+    run.log("%d will scripts (%d with a node failure on two nodes, %d on three)" % (len(scns), min(len(pf), npf), len(t3)))
     tpath, crashes = brokerlib.execute(run, scns, "c13", shards=14, timeout=3000)
     if crashes:
         raise vlib.Inconclusive("broker driver died: %s" % crashes[0][2][-2000:])
@@ -62,7 +91,8 @@ def check(run):
         "distinct_nontrivial": len(scns),
         "rule": "scenario = TLC-generated script (depth %d) for a will-carrying session and a second one over connect / subscribe / ping / idle / DISCONNECT / "
                 "close / malformed / long silence / node failure x will QoS 0-2, retained or not, hosted on node 1 or 2 x three watchers (two nodes, two "
-                "tenants; '#', '+', exact, non-matching filters)" % (5 if thorough else 4),
+                "tenants; '#', '+', exact, non-matching filters); plus three-node failures in which the two survivors are told in either order, with or "
+                "without gossip delivered in between" % (5 if thorough else 4),
         "events_validated": nev, "trace_spec_states": tstates, "rejections": len(rejected),
         "samples": [scns[0]["ops"][7:], scns[-1]["ops"][7:]],
     }, ["displacement by a newer session is not among C13's causes: publishing the will then is allowed, not required",
